@@ -42,6 +42,10 @@ def is_hex(t):
 def parse_build(toks):
     """→ dict target → ('rec'|'acc'|'fail', tag) | ('api', n) | …  (last step per target), or None if malformed."""
     cfg = {}
+    crate_acc = bool(toks) and toks[-1] == "crate-acc"
+    if crate_acc:      # the crate's own accepting modules in three slots, always the last step
+        toks = list(toks[:-1]) + ["ibc:acc", "gov:acc", "stargate:acc"]
+        cfg["crate-acc"] = ("crate-acc", 1)    # StargateAccepting answers stargate queries with `{}`, everything else like an accepting module
     for tok in toks:
         p = tok.split(":")
         if p[0] in SLOTS and len(p) in (2, 3) and p[1] in ("rec", "acc", "fail"):
@@ -189,8 +193,9 @@ def _check(ops, impl, want_builder):
                     return where + "recording module must answer `%s`" % want
                 pending = (n, [[rec]], out)
             elif mode == "acc":
-                if out != "ok -":
-                    return where + "accepting module must answer `ok -`"
+                want = "ok 7b7d" if ("crate-acc" in cfg and k == "stargate") else "ok -"
+                if out != want:
+                    return where + "accepting module must answer `%s`" % want
                 pending = (n, [[]], out)
             elif mode == "fail":
                 if out != "err":
